@@ -391,6 +391,12 @@ PoolStep(ln) ==
   CASE ln.op = "Open"       -> NoCalls(ln.st) /\ PFinish(OpenF(S, a.conn, a.mode, a.host).st, ln)
     [] ln.op = "Mode"       -> NoCalls(ln.st) /\ PFinish(ModeF(S, a.conn, a.mode).st, ln)
     [] ln.op = "Close"      -> NoCalls(ln.st) /\ PFinish(CloseF(S, a.conn).st, ln)
+    \* a connect request whose connection ends before the reply: carried out or not, the connection is gone afterwards
+    [] ln.op = "ConnectDrop" ->
+         LET P1 == Accepted1(S, a)
+             done == ConnectF(P1, a, NormURI(P1, a), FALSE).st
+         IN /\ NoCalls(ln.st)
+            /\ \E T \in {CloseF(S, a.conn).st, CloseF(done, a.conn).st} : PFinish(T, ln)
     [] ln.op = "Deposit"    -> NoCalls(ln.st) /\ PFinish(DepositF(S, a.acct, a.amt).st, ln)
     [] ln.op = "SettleMode" -> NoCalls(ln.st) /\ PFinish(SettleModeF(S, a.fail).st, ln)
     [] ln.op = "Ping"       -> ln.r.ok /\ NoCalls(ln.st) /\ PFinish(S, ln)
@@ -413,7 +419,7 @@ PoolStep(ln) ==
     [] ln.op = "Withdraw"   -> WithdrawStep(ln)
     [] ln.op = "Account"    -> AccountStep(ln)
 
-IsPoolOp(op) == op \in {"Status", "AgentNew", "AgentPeers", "AgentStart", "AgentUpdate", "AgentStop", "Open", "Mode", "Close", "Deposit", "SettleMode", "Ping", "Connect", "Host", "Client",
+IsPoolOp(op) == op \in {"Status", "AgentNew", "AgentPeers", "AgentStart", "AgentUpdate", "AgentStop", "Open", "Mode", "Close", "ConnectDrop", "Deposit", "SettleMode", "Ping", "Connect", "Host", "Client",
                         "Update", "Peer", "AddNode", "Withdraw", "Account"}
 
 \* store operations issued directly on the pool's store keep their meaning;
